@@ -37,8 +37,14 @@ var c10Syms = []struct{ name, text string }{
 // astronomically large just below 1)
 var c10Thresholds = []float64{0, math.SmallestNonzeroFloat64, 0.01, 0.5, 0.8, 0.999, 1 - 1e-13, math.Nextafter(1, 0), 1}
 
+// c10Trace (job parameter trace=all): every trace phase of every license, to a no-op tracer.
+var c10Trace bool
+
 func c10Corpus(shape int, t float64) *Classifier {
 	cl := NewClassifier(t)
+	if c10Trace {
+		cl.SetTraceConfiguration(&TraceConfiguration{TraceLicenses: "*", TracePhases: "*", Tracer: func(string, ...interface{}) {}})
+	}
 	switch shape {
 	case 0: // empty corpus
 	case 1:
@@ -58,6 +64,7 @@ func c10Corpus(shape int, t float64) *Classifier {
 var c10ShapeNames = []string{"empty corpus", "one empty document", "one 14-word document", "three documents (5 words, 1 word, no words)", "embedded corpus"}
 
 func c10Total(c *vrep.Ctx) {
+	c10Trace = c.Param("trace", "off") == "all"
 	shape := c.ParamInt("shape", 2)
 	maxLen := c.ParamInt("maxlen", c.Pick(2, 3))
 	ts := c10Thresholds
@@ -191,6 +198,7 @@ var c10WinSyms = []struct{ name, text string }{
 func init() { vRegister("c10_window", c10Window) }
 
 func c10Window(c *vrep.Ctx) {
+	c10Trace = c.Param("trace", "off") == "all"
 	fillers := []struct{ name, unit string }{{"words", "aa bb "}, {"one word", "a"}, {"lines", "aa\n"}, {"blanks", " "}, {"3-byte runes", "\u4e16 "}, {"2-byte runes", "\u00e9"}, {"blank lines", "\n"}}
 	ctxs := []string{"a", " ", "-", "\n"}
 	follows := []string{"", "b", " bb cc aa bb", "\nbb"}
